@@ -338,6 +338,7 @@ func (s *Store) compact(footer *Footer, partialCompactStart int,
 	} else {
 		s.totCompactionsPartial++
 	}
+	verifTrace("store.compact.swap", s, partialCompactStart)
 	s.m.Unlock()
 
 	s.histograms["CompactUsecs"].Add(
